@@ -95,13 +95,13 @@ def stub_names():
 class Obligation:
     def __init__(self, name, prop, harness, entry, tus, defs=None, libdefs=None, cdefs=None, unwind=8, unwindset=None,
                  tier='quick', timeout=240, mem_gb=3, pipeline='O1', kf=None, solver=None, extra_stub=None, note='', bounds='',
-                 seltest=True, cbmc_extra=None, extra_c=None, engine='E1'):
+                 seltest=True, cbmc_extra=None, extra_c=None, engine='E1', e2_setup=None):
         self.name = name; self.prop = prop; self.harness = harness; self.entry = entry; self.tus = list(tus)
         self.defs = dict(defs or {}); self.libdefs = dict(libdefs or {}); self.cdefs = dict(cdefs or {})
         self.unwind = unwind; self.unwindset = dict(unwindset or {}); self.tier = tier; self.timeout = timeout
         self.mem_gb = mem_gb; self.pipeline = pipeline; self.kf = kf; self.solver = solver
         self.extra_stub = list(extra_stub or []); self.note = note; self.bounds = bounds; self.seltest = seltest
-        self.cbmc_extra = list(cbmc_extra or []); self.extra_c_files = list(extra_c or []); self.engine = engine
+        self.cbmc_extra = list(cbmc_extra or []); self.extra_c_files = list(extra_c or []); self.engine = engine; self.e2_setup = e2_setup
 
 
 class Runner:
@@ -254,6 +254,10 @@ class Runner:
         cmd = ['cbmc', mc, os.path.join(RT, 'stubs.c')] + [os.path.join(VERIF, 'harness', s) for s in ob.extra_c()] + \
               ['-I' + RT, '--function', ob.entry, '--show-loops', '--drop-unused-functions'] + dflags(ob.cdefs)
         rc, so, se, w, _ = run(cmd, timeout=120)
+        return re.findall(r'^Loop ([^\s:]+):', so, re.M)
+
+    def loops_cmd(self, cmd0):
+        rc, so, se, w, _ = run(cmd0 + ['--show-loops', '--drop-unused-functions'], timeout=180)
         return re.findall(r'^Loop ([^\s:]+):', so, re.M)
 
     def cbmc(self, ob, mc, kf_confirm=0, tag=''):
